@@ -20,6 +20,11 @@ func init() {
 	register("R-PANIC", "every explicit panic in lexer, parser, internal/* and interp either carries a typed error that a recover on the stack converts (*ast.PositionError under ParseProgram, *compileError under Compile), or sits in the default clause of a switch that R-EXH proves exhaustive, or is tabled with the invariant that makes it unreachable; every Must* call with a non-constant argument and every unchecked type assertion is tabled with its validity argument; every call of the panicking resolver API runs under a recover; the CLI indexes the source by an error position only within bounds", rulePanic)
 }
 
+// node types that never leave the parser (each with the reason)
+var parseInternalNodes = map[string]string{
+	"MultiExpr": "comma-separated pseudo-expression: consumed by print/printf or rejected by parser.checkMultiExprs before parsing ends (checked: ParseProgram's program() calls checkMultiExprs)",
+}
+
 type exhProof struct {
 	pos  token.Pos // position of the switch statement
 	what string
@@ -139,7 +144,7 @@ func exhaustiveSwitches(c *Ctx, report bool) map[token.Pos]string {
 				want := implementers(iface)
 				var missing []string
 				for t := range want {
-					if !got[t] {
+					if !got[t] && parseInternalNodes[t] == "" {
 						missing = append(missing, t)
 					}
 				}
@@ -589,7 +594,7 @@ func ruleExh(c *Ctx) {
 // ---------------------------------------------------------------- R-PANIC
 
 var panicTable = map[string]string{
-	"lexer.Lexer.ScanRegex":                         "API precondition: called only by parser.nextRegex, which is reached only when the current token is DIV or DIV_ASSIGN (checked below)",
+	"lexer.Lexer.scanRegex":                         "API precondition: called only by parser.nextRegex, which is reached only when the current token is DIV or DIV_ASSIGN (checked below)",
 	"internal/compiler.compiler.scalarInfo":         "resolver invariant: every VarExpr the compiler asks about was recorded as Scalar by the resolver (a variable used both ways is a parse error)",
 	"internal/compiler.compiler.arrayInfo":          "resolver invariant: every array name the compiler asks about was recorded as Array by the resolver",
 	"internal/compiler.disassembler.localName":      "debug-only (-da): index comes from the compiler's own local numbering",
@@ -601,6 +606,7 @@ var panicTable = map[string]string{
 }
 
 var mustTable = map[string]string{
+	"interp.interp.setSpecial:regexp.MustCompile": "only in the branch RuneCountInString(RS)==1 with len(RS)>1, i.e. RS is the valid UTF-8 encoding of one rune; QuoteMeta of a valid rune is a valid pattern (checked: the call is dominated by that comparison)",
 	"internal/compiler.compiler.regexIndex:regexp.MustCompile": "the same string was compiled successfully by regexp.Compile in parser.nextRegex (with the same AddRegexFlags wrapper) before the RegExpr node was built",
 }
 
@@ -769,6 +775,21 @@ func rulePanic(c *Ctx) {
 		}
 	}
 	c.atLeast("explicit panic sites", nP, 45)
+	// parse-internal node types: the parser's top-level function rejects leftovers
+	{
+		called := false
+		if fd := c.funcDecl("parser", "parser.program"); fd != nil {
+			ast.Inspect(fd.Body, func(n ast.Node) bool {
+				if call, ok := n.(*ast.CallExpr); ok {
+					if se, ok := call.Fun.(*ast.SelectorExpr); ok && se.Sel.Name == "checkMultiExprs" {
+						called = true
+					}
+				}
+				return true
+			})
+		}
+		c.check(called, "parse-internal:MultiExpr", token.NoPos, "parser.program() calls checkMultiExprs, so no MultiExpr node survives parsing", "parser.program() no longer calls checkMultiExprs: a stray (a, b) list reaches the resolver/compiler, whose type switches have no case for MultiExpr")
+	}
 
 	// side conditions of tabled panics
 	// (1) nextRegex reached only under DIV / DIV_ASSIGN
@@ -927,7 +948,11 @@ func rulePanic(c *Ctx) {
 					k = strings.ReplaceAll(k, ")", "")
 					key := "must:" + k + ":" + callee.Pkg.Pkg.Name() + "." + callee.Name()
 					if why, ok := mustTable[k+":"+callee.Pkg.Pkg.Name()+"."+callee.Name()]; ok {
-						c.ok(key, in.Pos(), "tabled: %s", why)
+						if k == "interp.interp.setSpecial" && !dominatedByOneRune(in) {
+							c.bad(key, in.Pos(), "MustCompile in setSpecial is tabled as safe only under `utf8.RuneCountInString(RS) == 1`, but that test no longer dominates it")
+						} else {
+							c.ok(key, in.Pos(), "tabled: %s", why)
+						}
 					} else {
 						c.bad(key, in.Pos(), "%s.%s is called with a run-time value: it panics when the value is invalid (e.g. a script-controlled string that is not a valid regular expression / not valid UTF-8)", callee.Pkg.Pkg.Name(), callee.Name())
 					}
@@ -1041,4 +1066,34 @@ func rulePanic(c *Ctx) {
 	} else {
 		c.undecided("anchor:showSourceLine", token.NoPos, "goawk.go showSourceLine not found")
 	}
+}
+
+
+// dominatedByOneRune: the instruction is reached only through the true edge of `RuneCountInString(x) == 1`.
+func dominatedByOneRune(in ssa.Instruction) bool {
+	blk := in.Block()
+	for _, b := range blk.Parent().Blocks {
+		if len(b.Instrs) == 0 {
+			continue
+		}
+		ifi, ok := b.Instrs[len(b.Instrs)-1].(*ssa.If)
+		if !ok {
+			continue
+		}
+		bo, ok := ifi.Cond.(*ssa.BinOp)
+		if !ok || bo.Op != token.EQL {
+			continue
+		}
+		call, ok := bo.X.(*ssa.Call)
+		if !ok || call.Call.StaticCallee() == nil || call.Call.StaticCallee().Name() != "RuneCountInString" {
+			continue
+		}
+		if k, ok := bo.Y.(*ssa.Const); !ok || k.Value == nil || k.Value.ExactString() != "1" {
+			continue
+		}
+		if b.Dominates(blk) && !reachableAvoiding(b.Succs[1], b)[blk] {
+			return true
+		}
+	}
+	return false
 }
